@@ -29,6 +29,7 @@ class LoopConnection(secsgem.common.Connection):
         self.send_ok = True
         self.after_close_sends = 0
         self.link = None  # optional Link that forwards written bytes to a peer connection
+        self.pace = 0.0  # > 0: virtual seconds between two arriving chunks (every other thread runs until it blocks in between)
 
     # ---- Connection API used by the protocol
     def enable(self):
@@ -103,6 +104,8 @@ class LoopConnection(secsgem.common.Connection):
                 if self.inbox:
                     chunk = self.inbox.popleft()
                     self.on_data({"source": self, "data": chunk})
+                    if self.pace:
+                        s.block(lambda: self._stop_thread, s.clock + self.pace, "line-pace")
                 elif self.eof:
                     self._connected = False
                     self._stop_thread = True
